@@ -15,7 +15,7 @@ func c03Opts() lab.GenOpts {
 	return lab.GenOpts{
 		Engines: []string{"v1", "v2"}, MaxSources: 3, MaxDests: 3, MaxRecords: 14, MaxProcs: 2,
 		Nacks: true, ProcErrors: true, Filters: true, Splits: true, Conditions: true, Workers: true,
-		ReadFaults: true, GateCommits: true, GateAcks: true, UnlimitedDLQ: true, DLQFaults: true,
+		ReadFaults: true, GateCommits: true, GateAcks: true, UnlimitedDLQ: true, DLQFaults: true, StoreFaults: true,
 		ClientKinds: []string{"stop", "stopandwait"}, ClientProb: 0.3,
 		MaxRetries: []int64{0, 1, 2},
 	}
